@@ -32,6 +32,7 @@ type msgField struct {
 	goName, wireName, ctype string
 	size, arrLen            int
 	ext, enum               bool
+	scalarChar              bool
 }
 
 type msgDef struct {
@@ -161,7 +162,7 @@ func evalStruct(named *types.Named) *msgDef {
 			}
 			if goType == "string" {
 				if l := tag.Get("mavlen"); l == "" {
-					f.arrLen = 1
+					f.scalarChar = true // a single char: one byte on the wire, NOT an array for CRC_EXTRA purposes
 				} else {
 					n, err := strconv.Atoi(l)
 					if err != nil || n < 1 || n > 255 {
